@@ -293,7 +293,7 @@ pub fn outl_values<'a, V>(values: &'a HashMap<String, V>) -> (r: Vec<&'a V>)
 #[verifier::external_body]
 pub fn raw_extend<'a, V>(values: &mut Vec<&'a V>, other: Vec<&'a V>)
     ensures final(values)@ == old(values)@ + other@,
-{ /* verbatim: values.extend(child.find(haystack)); */ values.extend(other) }
+{ /* verbatim: values.extend(child.find(haystack)); | values.extend(child.get(regex)); */ values.extend(other) }
 pub fn outl_extend<'a, V>(values: &mut Vec<&'a V>, other: Vec<&'a V>)
     ensures final(values)@ == old(values)@ + other@, refs_ms(final(values)@) == refs_ms(old(values)@).add(refs_ms(other@)),
 {
@@ -688,6 +688,343 @@ impl<V> Item<V> {
     //@|     lemma_map_insert_len_le(Map::<String, V>::empty(), id, item);
     //@|     assert(Multiset::<LeafV<V>>::empty().insert(newleaf) =~= Multiset::singleton(newleaf));
     //@| }
+}
+
+// ---------------------------------------------------------------- remove
+// ASSUMED (trusted, listed): a &str key designates the String key with the same characters (Borrow<str> for String); a String is
+// determined by its characters
+#[verifier::external_body] pub proof fn axiom_string_ext() ensures forall|a: String, b: String| #[trigger] a@ == #[trigger] b@ ==> a == b {}
+#[verifier::external_body]
+pub broadcast proof fn axiom_borrow_str_contains<V>(m: Map<String, V>, k: &str)
+    ensures #[trigger] contains_borrowed_key::<String, V, str>(m, k) == (exists|key: String| key@ == k@ && m.contains_key(key)),
+{}
+#[verifier::external_body]
+pub broadcast proof fn axiom_borrow_str_maps<V>(m: Map<String, V>, k: &str, v: V)
+    ensures #[trigger] maps_borrowed_key_to_value::<String, V, str>(m, k, v) == (exists|key: String| key@ == k@ && m.contains_key(key) && m[key] == v),
+{}
+#[verifier::external_body]
+pub broadcast proof fn axiom_borrow_str_removed<V>(m0: Map<String, V>, m1: Map<String, V>, k: &str)
+    ensures #[trigger] borrowed_key_removed::<String, V, str>(m0, m1, k) == (exists|key: String| key@ == k@ && m1 == m0.remove(key)),
+{}
+pub open spec fn has_id<V>(m: Map<String, V>, id: Seq<char>) -> bool { exists|k: String| k@ == id && m.contains_key(k) }
+pub open spec fn rem_law<V>(old: Multiset<LeafV<V>>, new: Multiset<LeafV<V>>, id: Seq<char>, rv: Option<V>) -> bool {
+    match rv {
+        // nothing stored under that id anywhere: nothing changes
+        None => new == old && forall|l: LeafV<V>| old.count(l) > 0 ==> !has_id(#[trigger] l.1, id),
+        // exactly one entry (the returned value) disappears from one leaf; a leaf that becomes empty is dropped
+        Some(v) => exists|l: LeafV<V>, k: String| #[trigger] old.count(l) > 0 && k@ == id && #[trigger] l.1.contains_key(k) && l.1[k] == v
+            && new == (if l.1.remove(k).len() > 0 { old.remove(l).insert((l.0, l.1.remove(k))) } else { old.remove(l) }),
+    }
+}
+pub open spec fn rem_post<V>(old: Item<V>, r: Item<V>, id: Seq<char>, rv: Option<V>) -> bool {
+    &&& wf(r) && item_ic(r) == item_ic(old)
+    &&& rem_law(leaves_ms(old), leaves_ms(r), id, rv)
+    &&& count(r) + (if rv is Some { 1nat } else { 0nat }) == count(old)
+    &&& forall|q: Seq<char>| bprefix(q, item_pat(old)) ==> (r is Empty) || #[trigger] bprefix(q, item_pat(r))
+}
+pub proof fn lemma_bprefix_trans(a: Seq<char>, b: Seq<char>, c: Seq<char>)
+    requires bprefix(a, b), bprefix(b, c),
+    ensures bprefix(a, c),
+{
+    assert(c.take(a.len() as int) =~= c.take(b.len() as int).take(a.len() as int));
+    lemma_scan_prefix(c, b, a.len() as int);
+}
+
+impl<V> Leaf<V> {
+    //@@ fn src/regex_radix_tree/leaf.rs :: impl <V>Leaf<V> / fn remove -> r
+    //@| requires wf(Item::Leaf(self)),
+    //@| ensures rem_post(Item::Leaf(self), r.0, id@, r.1),
+    //@| entry broadcast use vstd::std_specs::hash::group_hash_axioms; broadcast use axiom_string_key_model; broadcast use axiom_borrow_str_contains; broadcast use axiom_borrow_str_maps; broadcast use axiom_borrow_str_removed;
+    //@|     let ghost old_it = Item::Leaf(self); let ghost p0 = self.regex.original@; let ghost m0 = self.values@;
+    //@|     proof { axiom_string_ext(); }
+    //@| after `let removed = self.values.remove(id);`: proof {
+    //@|     let m1 = this.values@;
+    //@|     let key = choose|key: String| key@ == id@ && m1 == m0.remove(key);
+    //@|     let ms0 = leaves_ms(old_it);
+    //@|     assert(ms0 == Multiset::singleton((p0, m0)));
+    //@|     assert(m1.dom() =~= m0.dom().remove(key));
+    //@|     if removed is None {
+    //@|         assert(!m0.contains_key(key));
+    //@|         assert(m1 =~= m0);
+    //@|         assert forall|l: LeafV<V>| ms0.count(l) > 0 implies !has_id(#[trigger] l.1, id@) by { assert(l == (p0, m0)); }
+    //@|     } else {
+    //@|         assert(m0.contains_key(key) && m0[key] == removed.unwrap());
+    //@|         assert(ms0.count((p0, m0)) > 0);
+    //@|         assert(m1.len() + 1 == m0.len());
+    //@|         let l = (p0, m0);
+    //@|         assert(m0.remove(key) == m1);
+    //@|         if m1.len() > 0 {
+    //@|             assert(Multiset::singleton((p0, m1)) =~= ms0.remove(l).insert((l.0, l.1.remove(key))));
+    //@|             assert(ms0.count(l) > 0 && l.1.contains_key(key) && l.1[key] == removed.unwrap());
+    //@|             assert(rem_law(ms0, Multiset::singleton((p0, m1)), id@, removed));
+    //@|         } else {
+    //@|             assert(Multiset::<LeafV<V>>::empty() =~= ms0.remove(l));
+    //@|             assert(ms0.count(l) > 0 && l.1.contains_key(key) && l.1[key] == removed.unwrap());
+    //@|             assert(rem_law(ms0, Multiset::<LeafV<V>>::empty(), id@, removed));
+    //@|         }
+    //@|     }
+    //@| }
+}
+
+// a well-formed item without stored values has no leaves (leaves are never empty)
+pub proof fn lemma_count0_no_leaves<V>(it: Item<V>)
+    requires wf(it), count(it) == 0,
+    ensures leaves_ms(it) == Multiset::<LeafV<V>>::empty(),
+    decreases it, 0int,
+{
+    match it {
+        Item::Node(n) => { lemma_count0_children(n, n.children@.len() as int); }
+        _ => {}
+    }
+}
+pub proof fn lemma_count0_children<V>(n: Node<V>, k: int)
+    requires wf(Item::Node(n)), 0 <= k <= n.children@.len(), count_children(n.children@, k) == 0,
+    ensures leaves_children(n.children@, k) == Multiset::<LeafV<V>>::empty(),
+    decreases n, k,
+{
+    if k > 0 {
+        lemma_count0_children(n, k - 1);
+        lemma_count0_no_leaves(n.children@[k - 1]);
+        assert(Multiset::<LeafV<V>>::empty().add(Multiset::<LeafV<V>>::empty()) =~= Multiset::<LeafV<V>>::empty());
+    }
+}
+// loop-step lemmas of Node::remove
+pub proof fn lemma_rem_first<V>(l0: Multiset<LeafV<V>>, c0: Multiset<LeafV<V>>, x: Multiset<LeafV<V>>, x2: Multiset<LeafV<V>>, id: Seq<char>, rv: Option<V>)
+    requires rem_law(l0, c0, id, None::<V>), rem_law(x, x2, id, rv),
+    ensures rem_law(l0.add(x), c0.add(x2), id, rv),
+{
+    match rv {
+        None => {
+            assert forall|l: LeafV<V>| l0.add(x).count(l) > 0 implies !has_id(#[trigger] l.1, id) by { if l0.count(l) > 0 {} else { assert(x.count(l) > 0); } }
+        }
+        Some(v) => {
+            let (l, k) = choose|l: LeafV<V>, k: String| #[trigger] x.count(l) > 0 && k@ == id && #[trigger] l.1.contains_key(k) && l.1[k] == v
+                && x2 == (if l.1.remove(k).len() > 0 { x.remove(l).insert((l.0, l.1.remove(k))) } else { x.remove(l) });
+            assert(l0.add(x).count(l) > 0);
+            if l.1.remove(k).len() > 0 { assert(c0.add(x2) =~= l0.add(x).remove(l).insert((l.0, l.1.remove(k)))); } else { assert(c0.add(x2) =~= l0.add(x).remove(l)); }
+            assert(l.1.contains_key(k));
+        }
+    }
+}
+pub proof fn lemma_rem_after<V>(l0: Multiset<LeafV<V>>, c0: Multiset<LeafV<V>>, x: Multiset<LeafV<V>>, id: Seq<char>, v: V)
+    requires rem_law(l0, c0, id, Some(v)),
+    ensures rem_law(l0.add(x), c0.add(x), id, Some(v)),
+{
+    let (l, k) = choose|l: LeafV<V>, k: String| #[trigger] l0.count(l) > 0 && k@ == id && #[trigger] l.1.contains_key(k) && l.1[k] == v
+        && c0 == (if l.1.remove(k).len() > 0 { l0.remove(l).insert((l.0, l.1.remove(k))) } else { l0.remove(l) });
+    assert(l0.add(x).count(l) > 0);
+    if l.1.remove(k).len() > 0 { assert(c0.add(x) =~= l0.add(x).remove(l).insert((l.0, l.1.remove(k)))); } else { assert(c0.add(x) =~= l0.add(x).remove(l)); }
+    assert(l.1.contains_key(k));
+}
+
+impl<V> Node<V> {
+    //@@ fn src/regex_radix_tree/node.rs :: impl <V>Node<V> / fn remove -> r
+    //@| requires wf(Item::Node(self)),
+    //@| ensures rem_post(Item::Node(self), r.0, id@, r.1),
+    //@| decreases self, 0int,
+    //@| entry let ghost old_it = Item::Node(self); let ghost o = self.regex.original@; let ghost ic = self.regex.ignore_case; let ghost cs0 = self.children@;
+    //@| forlabel 0: it
+    //@| loop 0: invariant iter_ok(it.history@, it.index@, it.snapshot@.remaining(), cs0), wf(old_it), old_it == Item::Node(self), cs0 == self.children@, ic == self.regex.ignore_case, o == self.regex.original@,
+    //@|         forall|j: int| 0 <= j < children@.len() ==> wf(#[trigger] children@[j]) && !(children@[j] is Empty) && item_ic(children@[j]) == ic && bprefix(o, item_pat(children@[j])),
+    //@|         rem_law(leaves_children(cs0, it.index@), leaves_children(children@, children@.len() as int), id@, removed),
+    //@|         count_children(children@, children@.len() as int) + (if removed is Some { 1nat } else { 0nat }) == count_children(cs0, it.index@),
+    //@| loophead 0: let ghost k = it.index@; let ghost ch0 = children@; let ghost rm0 = removed;
+    //@|     proof { assert(child == cs0[k]); assert(self.children@[k] == child); assert(wf(child) && !(child is Empty) && item_ic(child) == ic && bprefix(o, item_pat(child)));
+    //@|             assert(leaves_children(cs0, k + 1) == leaves_children(cs0, k).add(leaves_ms(cs0[k]))); assert(count_children(cs0, k + 1) == count_children(cs0, k) + count(cs0[k])); }
+    //@| after `children.push(child);`#0: proof {
+    //@|     lemma_children_push(ch0, cs0[k]);
+    //@|     assert(children@ =~= ch0.push(cs0[k]));
+    //@|     lemma_rem_after(leaves_children(cs0, k), leaves_children(ch0, ch0.len() as int), leaves_ms(cs0[k]), id@, rm0.unwrap());
+    //@| }
+    //@| after `if !child.is_empty() { children.push(child); }`: proof {
+    //@|     let c1 = child;
+    //@|     assert(rem_post(cs0[k], c1, id@, value));
+    //@|     assert(rm0 is None);
+    //@|     assert(removed == value);
+    //@|     lemma_rem_first(leaves_children(cs0, k), leaves_children(ch0, ch0.len() as int), leaves_ms(cs0[k]), leaves_ms(c1), id@, value);
+    //@|     if count(c1) == 0 {
+    //@|         lemma_count0_no_leaves(c1);
+    //@|         assert(children@ == ch0);
+    //@|         assert(leaves_children(ch0, ch0.len() as int).add(Multiset::<LeafV<V>>::empty()) =~= leaves_children(ch0, ch0.len() as int));
+    //@|     } else {
+    //@|         lemma_children_push(ch0, c1);
+    //@|         assert(children@ =~= ch0.push(c1));
+    //@|         assert(!(c1 is Empty));
+    //@|         assert(bprefix(o, item_pat(c1)));
+    //@|     }
+    //@| }
+    //@| before `if children.len() == 1 {`: proof {
+    //@|     assert(rem_law(leaves_children(cs0, cs0.len() as int), leaves_children(children@, children@.len() as int), id@, removed));
+    //@|     if children@.len() == 1 {
+    //@|         let c = children@[0];
+    //@|         assert(leaves_children(children@, 1) == leaves_children(children@, 0).add(leaves_ms(c)));
+    //@|         assert(Multiset::<LeafV<V>>::empty().add(leaves_ms(c)) =~= leaves_ms(c));
+    //@|         assert(count_children(children@, 1) == count_children(children@, 0) + count(c));
+    //@|         assert forall|q: Seq<char>| bprefix(q, o) implies #[trigger] bprefix(q, item_pat(c)) by { lemma_bprefix_trans(q, o, item_pat(c)); }
+    //@|     }
+    //@| }
+}
+impl<V> Item<V> {
+    //@@ fn src/regex_radix_tree/item.rs :: impl <V>Item<V> / fn remove -> r
+    //@| requires wf(self),
+    //@| ensures rem_post(self, r.0, id@, r.1),
+    //@| decreases self, 1int,
+}
+
+// ---------------------------------------------------------------- lookup by pattern
+pub open spec fn get_ms<V>(it: Item<V>, p: Seq<char>) -> Multiset<V>
+    decreases it
+{
+    match it {
+        Item::Empty(_) => Multiset::empty(),
+        Item::Leaf(l) => if l.regex.original@ == p { vals_ms(l.values@) } else { Multiset::empty() },
+        Item::Node(n) => get_children(n.children@, p, n.children@.len() as int),
+    }
+}
+pub open spec fn get_children<V>(cs: Seq<Item<V>>, p: Seq<char>, k: int) -> Multiset<V>
+    decreases cs, k
+{ if k <= 0 || k > cs.len() { Multiset::empty() } else { get_children(cs, p, k - 1).add(get_ms(cs[k - 1], p)) } }
+pub open spec fn is_prefix(q: Seq<char>, p: Seq<char>) -> bool { q.len() <= p.len() && q == p.take(q.len() as int) }
+// R8 outlined expression: str::starts_with(&str) (generic Pattern API; assumed: string prefix test)
+#[verifier::external_body]
+pub fn outl_starts_with(a: &str, b: &str) -> (r: bool) ensures r == is_prefix(b@, a@) { /* verbatim: regex.starts_with(self.regex.original.as_str()) */ a.starts_with(b) }
+// below an item whose own pattern is not a string prefix of p (node) / not p (leaf), nothing is stored under p
+pub proof fn lemma_get_prune<V>(it: Item<V>, p: Seq<char>)
+    requires wf(it), !is_prefix(item_pat(it), p),
+    ensures get_ms(it, p) == Multiset::<V>::empty(),
+    decreases it, 0int,
+{
+    assert(p.take(p.len() as int) =~= p);
+    match it { Item::Node(n) => { lemma_get_prune_children(n, p, n.children@.len() as int); } _ => {} }
+}
+pub proof fn lemma_get_prune_children<V>(n: Node<V>, p: Seq<char>, k: int)
+    requires wf(Item::Node(n)), !is_prefix(n.regex.original@, p), 0 <= k <= n.children@.len(),
+    ensures get_children(n.children@, p, k) == Multiset::<V>::empty(),
+    decreases n, k,
+{
+    if k > 0 {
+        lemma_get_prune_children(n, p, k - 1);
+        let c = n.children@[k - 1];
+        assert(bprefix(n.regex.original@, item_pat(c)));
+        // if the child's pattern were a prefix of p, so would the node's
+        if is_prefix(item_pat(c), p) {
+            assert(p.take(n.regex.original@.len() as int) =~= p.take(item_pat(c).len() as int).take(n.regex.original@.len() as int));
+        }
+        lemma_get_prune(c, p);
+        assert(Multiset::<V>::empty().add(Multiset::<V>::empty()) =~= Multiset::<V>::empty());
+    }
+}
+impl<V> Leaf<V> {
+    //@@ fn src/regex_radix_tree/leaf.rs :: impl <V>Leaf<V> / fn get -> r
+    //@| ensures refs_ms(r@) == get_ms(Item::Leaf(*self), regex@),
+    //@| entry proof { lemma_refs_ms_empty::<V>(); }
+    //@| outline `self.values.values().collect()` => `outl_values(&self.values)`
+}
+impl<V> Node<V> {
+    //@@ fn src/regex_radix_tree/node.rs :: impl <V>Node<V> / fn get -> r
+    //@| requires wf(Item::Node(*self)),
+    //@| ensures refs_ms(r@) == get_ms(Item::Node(*self), regex@),
+    //@| decreases self, 0int,
+    //@| entry proof { lemma_refs_ms_empty::<V>(); if !is_prefix(self.regex.original@, regex@) { lemma_get_prune(Item::Node(*self), regex@); } }
+    //@| forlabel 0: it
+    //@| loop 0: invariant wf(Item::Node(*self)), iter_ref_ok(it.history@, it.index@, it.snapshot@.remaining(), self.children@),
+    //@|         refs_ms(values@) == get_children(self.children@, regex@, it.index@),
+    //@| loophead 0: proof { assert(*child == self.children@[it.index@ as int]); }
+    //@| outline `regex.starts_with(self.regex.original.as_str())` => `outl_starts_with(regex, self.regex.original.as_str())`
+    //@| outline `values.extend(child.get(regex));` => `outl_extend(&mut values, child.get(regex));`
+}
+impl<V> Item<V> {
+    //@@ fn src/regex_radix_tree/item.rs :: impl <V>Item<V> / fn get -> r
+    //@| requires wf(*self),
+    //@| ensures refs_ms(r@) == get_ms(*self, regex@),
+    //@| decreases self, 1int,
+    //@| entry proof { lemma_refs_ms_empty::<V>(); }
+}
+
+// ================================================================ the public maps (src/regex_radix_tree/tree.rs)
+//@@ item src/regex_radix_tree/tree.rs :: struct RegexTreeMap
+//@@ item src/regex_radix_tree/tree.rs :: struct UniqueRegexTreeMap
+impl<V> RegexTreeMap<V> {
+    pub open spec fn wf(&self) -> bool { wf(self.root) }
+    pub open spec fn content(&self) -> Multiset<LeafV<V>> { leaves_ms(self.root) }
+
+    //@@ fn src/regex_radix_tree/tree.rs :: impl <V>RegexTreeMap<V> / fn new -> r
+    //@| ensures r.wf(), r.content() == Multiset::<LeafV<V>>::empty(), item_ic(r.root) == ignore_case, count(r.root) == 0,
+
+    //@@ fn src/regex_radix_tree/tree.rs :: impl <V>RegexTreeMap<V> / fn insert
+    //@| requires old(self).wf(), regex@.len() > 0, pat_ok(regex@),
+    //@| ensures final(self).wf(), item_ic(final(self).root) == item_ic(old(self).root), count(final(self).root) <= count(old(self).root) + 1,
+    //@|     exists|k: String| k@ == id@ && ins_law(old(self).content(), final(self).content(), regex@, k, item),
+
+    //@@ fn src/regex_radix_tree/tree.rs :: impl <V>RegexTreeMap<V> / fn remove -> r
+    //@| requires old(self).wf(),
+    //@| ensures rem_post(old(self).root, final(self).root, id@, r),
+
+    //@@ fn src/regex_radix_tree/tree.rs :: impl <V>RegexTreeMap<V> / fn len -> r
+    //@| requires count(self.root) <= usize::MAX,
+    //@| ensures r == count(self.root),
+
+    //@@ fn src/regex_radix_tree/tree.rs :: impl <V>RegexTreeMap<V> / fn is_empty -> r
+    //@| ensures r == (count(self.root) == 0),
+
+    //@@ fn src/regex_radix_tree/tree.rs :: impl <V>RegexTreeMap<V> / fn find -> r
+    //@| requires self.wf(),
+    //@| ensures refs_ms(r@) == scan_match(self.root, haystack@),
+
+    //@@ fn src/regex_radix_tree/tree.rs :: impl <V>RegexTreeMap<V> / fn get -> r
+    //@| requires self.wf(),
+    //@| ensures refs_ms(r@) == get_ms(self.root, regex@),
+
+    // warm-up with any limit / level: observationally the same tree (same_obs), well-formed, budget never grows, terminates
+    //@@ fn src/regex_radix_tree/tree.rs :: impl <V>RegexTreeMap<V> / fn cache -> r
+    //@| requires old(self).wf(), level matches Some(l) ==> l < u64::MAX,
+    //@| ensures final(self).wf(), same_obs(final(self).root, old(self).root), r <= limit,
+    //@| entry proof { lemma_same_obs_refl(self.root); }
+    //@| loop 0: invariant wf(self.root), same_obs(self.root, old(self).root), left <= limit, cache_level <= limit - left,
+    //@|     decreases left,
+    //@| loophead 0: let ghost r0 = self.root;
+    //@| looptail 0: proof { lemma_same_obs_trans(self.root, r0, old(self).root); }
+    //@| before `break;`: proof { lemma_same_obs_trans(self.root, r0, old(self).root); }
+}
+pub proof fn lemma_same_obs_trans<V>(a: Item<V>, b: Item<V>, c: Item<V>)
+    requires same_obs(a, b), same_obs(b, c),
+    ensures same_obs(a, c),
+    decreases a,
+{
+    match (a, b, c) {
+        (Item::Node(x), Item::Node(y), Item::Node(z)) => {
+            assert forall|i: int| 0 <= i < x.children@.len() implies same_obs(#[trigger] x.children@[i], z.children@[i]) by { lemma_same_obs_trans(x.children@[i], y.children@[i], z.children@[i]); }
+        }
+        _ => {}
+    }
+}
+impl<V> UniqueRegexTreeMap<V> {
+    //@@ fn src/regex_radix_tree/tree.rs :: impl <V>UniqueRegexTreeMap<V> / fn new -> r
+    //@| ensures r.tree.wf(), r.tree.content() == Multiset::<LeafV<V>>::empty(), item_ic(r.tree.root) == ignore_case,
+
+    //@@ fn src/regex_radix_tree/tree.rs :: impl <V>UniqueRegexTreeMap<V> / fn insert
+    //@| requires old(self).tree.wf(), regex@.len() > 0, pat_ok(regex@),
+    //@| ensures final(self).tree.wf(), item_ic(final(self).tree.root) == item_ic(old(self).tree.root),
+    //@|     exists|k: String| k@ == regex@ && ins_law(old(self).tree.content(), final(self).tree.content(), regex@, k, item),
+
+    //@@ fn src/regex_radix_tree/tree.rs :: impl <V>UniqueRegexTreeMap<V> / fn remove -> r
+    //@| requires old(self).tree.wf(),
+    //@| ensures rem_post(old(self).tree.root, final(self).tree.root, regex@, r),
+
+    //@@ fn src/regex_radix_tree/tree.rs :: impl <V>UniqueRegexTreeMap<V> / fn find -> r
+    //@| requires self.tree.wf(),
+    //@| ensures refs_ms(r@) == scan_match(self.tree.root, haystack@),
+
+    //@@ fn src/regex_radix_tree/tree.rs :: impl <V>UniqueRegexTreeMap<V> / fn len -> r
+    //@| requires count(self.tree.root) <= usize::MAX,
+    //@| ensures r == count(self.tree.root),
+
+    //@@ fn src/regex_radix_tree/tree.rs :: impl <V>UniqueRegexTreeMap<V> / fn is_empty -> r
+    //@| ensures r == (count(self.tree.root) == 0),
+
+    //@@ fn src/regex_radix_tree/tree.rs :: impl <V>UniqueRegexTreeMap<V> / fn cache -> r
+    //@| requires old(self).tree.wf(), level matches Some(l) ==> l < u64::MAX,
+    //@| ensures final(self).tree.wf(), same_obs(final(self).tree.root, old(self).tree.root), r <= limit,
 }
 
 //@@ strlits
